@@ -125,7 +125,7 @@ func (b *base) Sub(fp string, nontrivial bool) {
 		})
 	}
 }
-func (b *base) SkipOuter()                     { b.skipOuter = true }
+func (b *base) SkipOuter() { b.skipOuter = true }
 
 func (b *base) FP(parts ...interface{}) {
 	for _, p := range parts {
